@@ -746,6 +746,19 @@ impl Session {
         true
     }
 
+    pub fn is_hosting(&mut self, peer: u32) -> bool {
+        let w = self.peers[peer as usize].app.world();
+        w.contains_resource::<NetcodeServerTransport>()
+    }
+
+    pub fn port_of(&mut self, peer: u32) -> u16 {
+        let w = self.peers[peer as usize].app.world();
+        match w.get_resource::<SyncConnectionParameters>() {
+            Some(SyncConnectionParameters::Socket { port, .. }) => *port,
+            None => self.port,
+        }
+    }
+
     pub fn set_port(&mut self, peer: u32, port: u16) {
         let w = self.peers[peer as usize].app.world_mut();
         if let Some(mut p) = w.get_resource_mut::<SyncConnectionParameters>() {
